@@ -254,7 +254,7 @@ class Engine:
             if h.kind == 'map' and isinstance(h.data, dict):
                 # dict literal with constant keys -> opaque dict value with known items
                 v = smt.fresh('dict', V)
-                ctx.assume(smt.kind(v) == smt.K_DICT)
+                ctx.assume(smt.kind(v) == smt.K_DICT, smt.vlen(v) == len(h.data))
                 for k, item in h.data.items():
                     ctx.assume(smt.vhas(v, k))
                     ctx.assume(smt.vget(v, k) == self.to_v(ctx, item))
